@@ -126,11 +126,22 @@ def run(ctx, prog):
                 return None
             # Err after a successful key generation: in scope are failures of storage calls and of the document insertion
             internal = [c for c in p.find_calls(r'MethodDigest::new$') if p.took(c, 'Err')] + \
-                [c for c in p.find_calls(r'DIDUrl::fragment$') if p.took(c, 'None')] + \
-                [c for c in p.find_calls(r'VerificationMethod::new_from_jwk$') if p.took(c, 'Err')] + \
-                [c for c in ins if p.took(c, 'Err')]
+                [c for c in p.find_calls(r'DIDUrl::fragment$') if p.took(c, 'None')]
             if internal:
-                return None      # outside the property: the failing step is not a storage call (listed under outside_claim)
+                return None      # outside the property: cannot fail for a method built by new_from_jwk (listed under outside_claim)
+            # a key id recorded before the failure has to be removed again, and a failing removal must not be swallowed
+            kdel = awaited(p, r'KeyIdStorage>::delete_key_id$')
+            if ok_kid:
+                if not kdel:
+                    return 'key id recorded but not removed when the operation fails afterwards'
+                t_ = p.term(res.fields[0]) if isinstance(res, VAgg) and res.fields else None
+                for _, pl in kdel:
+                    if not (p.took(ready_val(pl), 'Ok') or p.took(ready_val(pl), 'Err') or is_sub(t_, ready_val(pl))):
+                        return 'the outcome of removing the recorded key id is ignored (a failed removal leaves an orphaned key id behind a plain error)'
+                failed = [pl for _, pl in kdel if p.took(ready_val(pl), 'Err')]
+                if failed:
+                    if not (any(is_sub(t_, ready_val(pl)) for pl in failed) or 'UndoOperationFailed' in term_str(t_)):
+                        return 'a failed removal of the recorded key id is not reported (orphaned key id behind a plain error)'
             if len(undo) != 1:
                 return 'failure after key generation without undoing the key generation'
             if not is_sub(undo[0][0].args, key_out) and not any(is_sub(a, ready_val(gen[0][1])) for a in undo[0][0].args):
